@@ -6,9 +6,9 @@ out="/verif/seeded/${id}-${x}"
 mkdir -p "$out"
 cp "$src/patch.diff" "$src/demo.py" "$src/meta.json" "$out/" || exit 2
 git -C /repo worktree remove --force "$wt" >/dev/null 2>&1
-git -C /repo worktree add --detach "$wt" HEAD >/dev/null 2>&1
+git -C /repo worktree add --detach "$wt" "${SEED_BASE:-HEAD}" >/dev/null 2>&1
 log="$out/confirm.log"; : > "$log"
-echo "repo HEAD: $(git -C /repo rev-parse --short HEAD)" >> "$log"
+echo "repo base: $(git -C "$wt" rev-parse --short HEAD)" >> "$log"
 # demo must pass on the unchanged tree
 (cd "$wt" && sed "s#/tmp/seed_$id#$wt#g" "$out/demo.py" > "$wt/_demo.py" && PYTHONPATH="$wt" timeout 600 /venv/bin/python _demo.py >/dev/null 2>&1); echo "demo_clean_exit=$?" >> "$log"
 if ! git -C "$wt" apply "$out/patch.diff" 2>>"$log"; then echo "patch_applies=no" >> "$log"; git -C /repo worktree remove --force "$wt"; exit 3; fi
